@@ -545,6 +545,10 @@ func main() {
 		if strings.HasPrefix(ob.merged.err, "panic:") {
 			failCapped(run, idx, "merge-panic", ob.merged.err, c)
 		}
+		if !strings.HasPrefix(ob.merged.err, "panic:") {
+			// ---- oracle (p): merging leaves its inputs alone and does not depend on earlier merges of the same objects
+			checkPurity(run, idx, c, vs, ob.merged)
+		}
 		ob.per = map[string]mergeOut{}
 		maxFold := 0
 		{
